@@ -18,9 +18,13 @@ import (
 	"fmt"
 	"os"
 	"path/filepath"
+	"runtime"
 	"strings"
 	"sync"
+	"sync/atomic"
 )
+
+var caseCount atomic.Int64
 
 var (
 	mu       sync.Mutex
@@ -104,6 +108,11 @@ func End(hash, verdict string) {
 // of each class key only.
 func Case(test, hash string, nontrivial bool, classes []string, sample any) {
 	initFiles()
+	if n := caseCount.Add(1); n%500 == 0 && os.Getenv("VERIF_DEBUG_G") != "" {
+		// development aid: a harness that leaks a goroutine per case makes the
+		// goroutine snapshots (and so a long campaign) quadratically slower
+		fmt.Fprintf(os.Stderr, "VERIF-GOROUTINES cases=%d goroutines=%d\n", n, runtime.NumGoroutine())
+	}
 	if out == nil {
 		return
 	}
